@@ -10,7 +10,10 @@ transpositions}; state = accumulated rotation R (hashed after rounding).  Every 
 rotate_orbs CUMULATIVELY to the already rotated ham_data; the harness rotates trial orbitals and walkers by the same
 matrix (phi' = g^T phi).  Invariant in every state: energies and force biases equal those of the initial state, the
 overlap ratio to the initial state is the same for every walker and equals 1; a state reached by two different words
-must carry the same rotated Hamiltonian (confluence).
+must carry the same rotated Hamiltonian (confluence).  Two routes per state (differential oracle): (i) intermediates built
+on a pristine dict holding the rotated h1/chol; (ii) the user's loop  ham_data = ham.rotate_orbs(ham_data, C); ham_data =
+ham.build_measurement_intermediates(ham_data, trial, wave_data)  on the SAME dict, so rotate_orbs receives the parent
+state's intermediates (rot_h1, rot_chol, ...) and the public handler has to replace every one of them.
 """
 
 import itertools
@@ -202,6 +205,70 @@ def measure(trial, wd, raw, mode, W, n):
             np.asarray(J(trial, "calc_force_bias")(w, hd, wd)))
 
 
+def fresh_full(ham, trial, wd, raw, n):
+    """The user's dictionary at the start of a loop: raw Hamiltonian + measurement intermediates built by the public handler."""
+    jnp, wf = trials.lib()
+    hd = {"h0": raw["h0"], "h1": jnp.asarray(np.asarray(raw["h1"], dtype=float)),
+          "chol": jnp.asarray(np.asarray(raw["chol"], dtype=float).reshape(len(raw["chol"]), n * n)), "ene0": 0.0}
+    return ham.build_measurement_intermediates(hd, trial, wd)
+
+
+def carried_step(ham, trial, full, g, wd_new):
+    """One iteration of  ham_data = ham.rotate_orbs(ham_data, C); ham_data = ham.build_measurement_intermediates(ham_data, trial,
+    wave_data)  on the SAME dictionary: rotate_orbs receives a dict that already holds the parent state's intermediates."""
+    jnp, wf = trials.lib()
+    hd = ham.rotate_orbs(dict(full), jnp.asarray(np.asarray(g, dtype=float)))
+    return ham.build_measurement_intermediates(hd, trial, wd_new)
+
+
+def measure_with(trial, wd, hd, mode, W):
+    jnp, wf = trials.lib()
+    J = gridmc.jitted
+    w = jnp.asarray(W[0]) if mode == "r" else [jnp.asarray(W[0]), jnp.asarray(W[1])]
+    return (np.asarray(J(trial, "calc_overlap")(w, wd)), np.asarray(J(trial, "calc_energy")(w, hd, wd)),
+            np.asarray(J(trial, "calc_force_bias")(w, hd, wd)))
+
+
+def _leaves(x):
+    if isinstance(x, (list, tuple)):
+        out = []
+        for y in x:
+            out += _leaves(y)
+        return out
+    return [np.asarray(x)]
+
+
+def stale_keys(full, clean):
+    """Keys of the carried dictionary whose content differs from the dictionary built from scratch in the same state."""
+    bad = []
+    for k in sorted(clean.keys()):
+        if k not in full:
+            bad.append((k, np.inf))
+            continue
+        la, lb = _leaves(full[k]), _leaves(clean[k])
+        e = np.inf if len(la) != len(lb) else 0.0
+        if e == 0.0:
+            for a, b in zip(la, lb):
+                if a.shape != b.shape or not np.isfinite(a).all():
+                    e = np.inf
+                    break
+                e = max(e, float(np.abs(a - b).max() / max(1.0, np.abs(b).max())) if b.size else 0.0)
+        if not e <= 1e-10:
+            bad.append((k, e))
+    return bad
+
+
+def carried_violation(res, cfg, kind, mode, word, gens, full, clean, errs):
+    """One defect, one signature: name the stale entry of the dictionary when there is one."""
+    sk = stale_keys(full, clean)
+    if sk:
+        sig = "build_measurement_intermediates-after-rotate_orbs:stale-%s" % sk[0][0]
+    else:
+        sig = "carried-ham_data/%s/%s:%s-not-invariant" % (kind, mode, sorted(k for k, e in errs.items() if not e <= TOL)[0])
+    res.violation(sig, dict(cfg, what="carried", mode=mode, word=word),
+                  dict(errs, stale=[[k, e] for k, e in sk], word=[gens[k][0] for k in word]))
+
+
 def invariant_errors(m, m0):
     O, E, F = m
     O0, E0, F0 = m0
@@ -250,7 +317,7 @@ def job_covariance(cfg):
     m0 = {m: measure(trial, p.wave_data, raw0, m, W0[m], n) for m in modes}
     for m in modes:
         res.nontrivial_values((kind, n, na, nb, m, "E0"), m0[m][1], 9)
-    root = dict(R=np.eye(n), raw=raw0, wd=p.wave_data, W=W0, word=[])
+    root = dict(R=np.eye(n), raw=raw0, wd=p.wave_data, W=W0, word=[], full=fresh_full(ham, trial, p.wave_data, raw0, n))
     visited = {state_key(root["R"]): root}
     frontier = [root]
     res.add(states=1)
@@ -281,17 +348,26 @@ def job_covariance(cfg):
                         res.violation("rotate_orbs:two-words-one-state-different-hamiltonian",
                                       dict(cfg, what="confluence", word=word, other_word=old["word"]), dict(err=float(e)))
                     continue
-                new = dict(R=R, raw=raw, wd=rotate_wave_data(kind, st["wd"], g, n), W={m: rotate_walkers(st["W"][m], g) for m in modes}, word=word)
+                wd_new = rotate_wave_data(kind, st["wd"], g, n)
+                # second route: the parent's dictionary WITH its intermediates goes through rotate_orbs, then the public handler rebuilds
+                full = carried_step(ham, trial, st["full"], g, wd_new)
+                res.add(transitions=2, traces=2)
+                new = dict(R=R, raw=raw, wd=wd_new, W={m: rotate_walkers(st["W"][m], g) for m in modes}, word=word, full=full)
                 visited[key] = new
                 nxt.append(new)
                 res.add(states=1)
                 nonsym = np.abs(R - R.T).max() > 1e-6
                 res.guard("states_with_nonsymmetric_rotation", int(nonsym))
                 res.guard("states_at_depth_%d" % d)
+                clean = fresh_full(ham, trial, new["wd"], raw, n)
                 for m in modes:
-                    errs = invariant_errors(measure(trial, new["wd"], raw, m, new["W"][m], n), m0[m])
+                    errs = invariant_errors(measure_with(trial, new["wd"], clean, m, new["W"][m]), m0[m])
+                    errs_c = invariant_errors(measure_with(trial, new["wd"], full, m, new["W"][m]), m0[m])
                     nw = len(W0[m][0])
-                    res.add(evaluations=3 * nw, traces=3)
+                    res.add(evaluations=6 * nw, traces=6)
+                    res.guard("carried_dict_states_measured")
+                    if all(e <= TOL for e in errs.values()) and any(not e <= TOL for e in errs_c.values()):
+                        carried_violation(res, cfg, kind, m, word, gens, full, clean, errs_c)
                     for what, e in errs.items():
                         if not e <= TOL:
                             res.violation("covariance/%s/%s:%s-not-invariant" % (kind, m, what),
@@ -313,7 +389,7 @@ def configs(tier, seed):
     out = [dict(part="congruence", n=n, n_chol=g, seed=seed, tier=tier) for n in (2, 3) for g in (1, 2)]
     if thorough:
         out.append(dict(part="congruence", n=4, n_chol=2, seed=seed, tier=tier))
-    sizes = [(2, 1, 1), (2, 2, 1), (3, 1, 1), (3, 2, 1), (3, 2, 2), (3, 2, 0), (3, 3, 1), (4, 2, 1)] + ([(4, 2, 2), (4, 3, 1)] if thorough else [])
+    sizes = [(2, 1, 1), (2, 2, 1), (3, 1, 1), (3, 2, 1), (3, 2, 2), (4, 2, 1)] + ([(3, 2, 0), (3, 3, 1), (4, 2, 2), (4, 3, 1)] if thorough else [])
     for (n, na, nb) in sizes:
         for kind in KINDS:
             if not trials.admitted(kind, n, na, nb):
@@ -332,7 +408,9 @@ def run(ctx):
                 "part B: trial kind {rhf, uhf, ghf, noci} x size x container x every word up to the depth over {Givens(i,j,theta) theta in {pi/2, pi/3, 0.3}, "
                 "reflections, transpositions}; state = accumulated rotation (rounded hash); each transition = one library rotate_orbs on the already rotated "
                 "Hamiltonian; in every new state calc_overlap / calc_energy / calc_force_bias on 4 generic complex walkers and the dense trial, rotated "
-                "by the same matrix, equal the initial state's (ratio 1); re-reached states compare their Hamiltonians (confluence)")
+                "by the same matrix, equal the initial state's (ratio 1), on two routes: intermediates built on a pristine dict, and the parent state's dict "
+                "WITH its intermediates passed through rotate_orbs and rebuilt by the public build_measurement_intermediates (stale entries are named by "
+                "comparing the two dicts key by key); re-reached states compare their Hamiltonians (confluence)")
     ctx.assume("basis change for an orthogonal C: one-body and Cholesky matrices by the library (C^T X C), orbital coefficient vectors (trial orbitals, every NOCI determinant, walkers) by phi' = C^T phi; GHF orbitals by blockdiag(C^T, C^T)")
     ctx.assume("multi-Slater and CI-type trials are tied to their own orbital basis and are outside the property's quantifier (orbital-based trials)")
     ctx.assume("quadratic-in-C / linear-in-X degree class: the unit x polarisation sets decide the congruence for every real C and X; dense members guard against other implementations")
@@ -340,7 +418,8 @@ def run(ctx):
     ctx.violations.sort(key=lambda v: (len(v["case"].get("word", [])), v["case"].get("n", 0)))
     if ctx.violations:
         return
-    ctx.require_guard("congruence_cases_with_nonsymmetric_result", "confluence_checks", "states_with_nonsymmetric_rotation", "states_at_depth_3")
+    ctx.require_guard("congruence_cases_with_nonsymmetric_result", "confluence_checks", "states_with_nonsymmetric_rotation", "states_at_depth_3",
+                      "carried_dict_states_measured")
 
 
 def replay(case):
@@ -376,6 +455,19 @@ def replay(case):
         return raw, wd, W
 
     raw, wd, W = run_word(cfg["word"])
+    if cfg["what"] == "carried":
+        m = cfg["mode"]
+        full = fresh_full(ham, trial, p.wave_data, raw0, n)
+        wd_c = p.wave_data
+        for gi in cfg["word"]:
+            wd_c = rotate_wave_data(kind, wd_c, gens[gi][1], n)
+            full = carried_step(ham, trial, full, gens[gi][1], wd_c)
+        m0 = measure(trial, p.wave_data, raw0, m, W0[m], n)
+        e_clean = invariant_errors(measure(trial, wd, raw, m, W[m], n), m0)
+        e_carr = invariant_errors(measure_with(trial, wd, full, m, W[m]), m0)
+        viol = all(e <= TOL for e in e_clean.values()) and any(not e <= TOL for e in e_carr.values())
+        return (viol, dict(carried=e_carr, clean=e_clean, stale=[[k, e] for k, e in stale_keys(full, fresh_full(ham, trial, wd, raw, n))],
+                           word=[gens[k][0] for k in cfg["word"]]))
     if cfg["what"] == "cumulative":
         R = np.eye(n)
         for gi in cfg["word"]:
